@@ -39,7 +39,9 @@ type Spec struct {
 	Hi      []float64 `json:"hi,omitempty"`
 	Hess    []float64 `json:"hess,omitempty"` // bfgs: Hessian option, row major
 	Cap     int       `json:"cap"`            // callback budget (harness safety, not an input of the routine)
-	Mode    string    `json:"mode,omitempty"` // newton: HessianModification ("" = option not passed)
+	Mode    string    `json:"mode,omitempty"` // newton: HessianModification ("" = option not passed); saga: "", L1, L2, Ti
+	Seed    int64     `json:"seed,omitempty"` // saga: Seed option
+	Steps   int       `json:"steps,omitempty"` // blahut: number of steps
 }
 
 type Run struct {
@@ -67,6 +69,15 @@ func isNewton(rt string) bool { return rt == "newton_root" || rt == "newton_crit
 func runSpec(s *Spec) (run *Run) {
 	if isNewton(s.Routine) {
 		return runNewton(s)
+	}
+	if isNewtonMin(s.Routine) {
+		return runNewtonMin(s)
+	}
+	if isSaga(s.Routine) {
+		return runSaga(s)
+	}
+	if isBlahut(s.Routine) {
+		return runBlahut(s)
 	}
 	run = &Run{}
 	lg := &Log{Cap: s.Cap}
@@ -295,6 +306,15 @@ func coqCase(s *Spec, r *Run) string {
 	if isNewton(s.Routine) {
 		return coqCaseNewton(s, r)
 	}
+	if isNewtonMin(s.Routine) {
+		return coqCaseNewtonMin(s, r)
+	}
+	if isSaga(s.Routine) {
+		return coqCaseSaga(s, r)
+	}
+	if isBlahut(s.Routine) {
+		return coqCaseBlahut(s, r)
+	}
 	var rt string
 	switch s.Routine {
 	case "rprop", "rprop_dense":
@@ -324,7 +344,7 @@ func coqCase(s *Spec, r *Run) string {
 	return fmt.Sprintf("mkCase (%s) %s\n   [%s]\n   %d %s %s", rt, FList(s.X0), strings.Join(evs, ";\n    "), r.Kind, FList(r.Point), FList(r.X0After))
 }
 
-const coqHeader = "From Coq Require Import ZArith List Bool Floats.\nFrom ADV Require Import Base.Num C07.Model C07.ModelNewton C07.Corr.\nImport ListNotations.\nOpen Scope Z_scope.\n"
+const coqHeader = "From Coq Require Import ZArith List Bool Floats.\nFrom ADV Require Import Base.Num C07.Model C07.ModelNewton C07.ModelNewtonMin C07.ModelSaga C07.ModelBlahut C07.Corr.\nImport ListNotations.\nOpen Scope Z_scope.\n"
 
 // ---------------------------------------------------------------- generators
 
@@ -515,7 +535,7 @@ func genSpec(r *Rng) Spec {
 func nontrivial(r *Run) bool {
 	ne := 0
 	for _, e := range r.Ev {
-		if e.K == "eval" || e.K == "evalv" {
+		if e.K == "eval" || e.K == "evalv" || e.K == "evalm" || e.K == "sev" || e.K == "bstep" {
 			ne++
 		}
 	}
@@ -547,12 +567,14 @@ func loadSpecs(path string) []Spec {
 }
 
 func addCase(w *CaseWriter, s *Spec, r *Run) {
-	ne, nh, nc, nd := 0, 0, 0, 0
+	ne, nh, nc, nd, np := 0, 0, 0, 0, 0
 	for _, e := range r.Ev {
 		switch e.K {
-		case "eval", "evalv":
+		case "eval", "evalv", "evalm", "sev", "bstep":
 			ne++
-		case "hook", "hookv":
+		case "phi":
+			np++
+		case "hook", "hookv", "hookm", "shook", "bhook":
 			nh++
 		case "dir":
 			nd++
@@ -561,10 +583,13 @@ func addCase(w *CaseWriter, s *Spec, r *Run) {
 		}
 	}
 	kinds := map[int]string{0: "ok", 1: "hookstop", 2: "error", 3: "panic", 20: "err_initial", 21: "err_objective",
-		22: "err_nan", 23: "err_direction", 24: "err_linesearch"}
+		22: "err_nan", 23: "err_direction", 24: "err_linesearch", 25: "err_linesearch_run"}
 	w.Count("routine:" + s.Routine)
 	w.Count("routine:" + s.Routine + ":" + kinds[r.Kind])
-	if isNewton(s.Routine) {
+	if isNewtonMin(s.Routine) {
+		w.CountN("events:phi", np)
+	}
+	if isNewton(s.Routine) || isNewtonMin(s.Routine) {
 		w.Count("newton_mode:" + s.Mode)
 		w.CountN("events:dir", nd)
 		if r.Kind == 3 {
@@ -627,8 +652,16 @@ func main() {
 	rng := NewRng(o.Seed)
 	for tries := 0; w.Len() < o.N+0 && tries < 20*o.N+100; tries++ {
 		var s Spec
-		if tries%13 < 3 {
+		if only := os.Getenv("C07_ONLY"); only != "" { // debugging aid: one generator only
+			s = genOnly(only, rng.Split())
+		} else if tries%13 < 3 {
 			s = genNewtonSpec(rng.Split())
+		} else if tries%13 < 5 {
+			s = genNewtonMinSpec(rng.Split())
+		} else if tries%13 < 7 {
+			s = genSagaSpec(rng.Split())
+		} else if tries%13 < 8 {
+			s = genBlahutSpec(rng.Split())
 		} else {
 			s = genSpec(rng.Split())
 		}
@@ -682,4 +715,18 @@ func replay(o Opts) {
 	res := map[string]interface{}{"dropped": r.Dropped, "failures": fails, "kind": r.Kind, "point": fmt.Sprint(r.Point), "panic": r.PanicMsg}
 	jb, _ := json.MarshalIndent(res, "", " ")
 	os.WriteFile(filepath.Join(o.Out, "replay_oracle.json"), jb, 0644)
+}
+
+func genOnly(which string, r *Rng) Spec {
+	switch which {
+	case "newton":
+		return genNewtonSpec(r)
+	case "nmin":
+		return genNewtonMinSpec(r)
+	case "saga":
+		return genSagaSpec(r)
+	case "blahut":
+		return genBlahutSpec(r)
+	}
+	return genSpec(r)
 }
